@@ -29,7 +29,7 @@ NoSkipCount(pn) == Cardinality({i \in DOMAIN pn : pn[i] # "skip"})
 
 Sc(m, n, pn, qf, k, lv, nsw, vals) ==
   [method |-> m, kind |-> MethodTab[m].kind, custom |-> MethodTab[m].custom,
-   n |-> n, pn |-> pn, qf |-> qf, k |-> k, lv |-> lv, nsw |-> nsw, vals |-> vals]
+   n |-> n, pn |-> pn, qf |-> qf, k |-> k, lv |-> lv, nsw |-> nsw, vals |-> vals, fk |-> ""]
 
 QCMethods   == {"QC", "QCPerNode", "QCCustom", "QCCombo", "Async", "AsyncPerNode", "AsyncCustom"}
 CorrMethods == {"Corr", "CorrPerNode", "CorrCustom", "CorrStream", "CorrStreamCustom"}
@@ -61,7 +61,16 @@ F_C11 == UNION {UNION {
                  k \in 1..n+1, lv \in {"count", "nonmono", "jump"}}
           : n \in 1..MaxN} : m \in CorrMethods}
 
+\* C07: every subset of failing nodes, handler errors and connection failures
+\* (fk: the server is stopped while the handler is pending / was stopped before
+\* the call / was never started), striking at every position of the arrival order
+F_C07 == UNION {UNION {
+            {[Sc(m, n, [i \in 1..n |-> "same"], "thr", k, "none", FALSE, {1}) EXCEPT !.fk = f] :
+                 k \in 1..n, f \in {"crash", "downbefore", "never"}}
+          : n \in 2..MaxN} : m \in {"QC", "Async", "QCCustom"}}
+
 Scenarios == CASE Family = "C01" -> F_C01
+               [] Family = "C07" -> F_C07
                [] Family = "C02" -> F_C02
                [] Family = "C06" -> F_C06
                [] Family = "C11" -> F_C11
@@ -81,6 +90,9 @@ EnvStep ==
              NodeRespond(n, TRUE, 0) /\ hist' = Append(hist, [a |-> "r", n |-> n, e |-> TRUE, v |-> 0])
         \/ \E n \in Node :
              StreamEnd(n) /\ hist' = Append(hist, [a |-> "end", n |-> n, e |-> FALSE, v |-> 0])
+        \/ \E n \in Node :    \* the connection to node n fails (C07)
+             /\ Family = "C07"
+             /\ NodeRespond(n, TRUE, 0) /\ hist' = Append(hist, [a |-> "t", n |-> n, e |-> TRUE, v |-> 0])
         \/ \E c \in (IF Family = "C02" THEN {"canceled", "deadline"} ELSE {"canceled"}) :
              CtxEnd(c) /\ hist' = Append(hist, [a |-> c, n |-> 0, e |-> FALSE, v |-> 0])
   \/ /\ pc = "init" /\ Family \in {"C02", "C06"}
